@@ -739,3 +739,99 @@ mut("mark_file_number_used_can_lower_counter", ["C10"], "OWN-8", file="src/versi
             self.curr_file_number = file_number;
         }""",
     new="""        self.curr_file_number = file_number;""")
+
+mut("revert_D5", ["C07", "C01"], "ACC-1", patch="revert_D5_key_range_upper_bound.diff", note="upper bound of a file set's key range shrinks")
+
+# ---- LCK-4b / ORD-9 pending imm / ORD-13
+mut("forced_flush_wait_ignores_sticky_error", ["C09"], "LCK-4b", file="src/db.rs",
+    old="""        while db_fields_guard.maybe_immutable_memtable.is_some()
+            && db_fields_guard.maybe_bad_database_state.is_none()
+        {""",
+    new="""        while db_fields_guard.maybe_immutable_memtable.is_some() {""",
+    note="after a failed flush the immutable memtable stays and compact_range waits forever")
+mut("forced_flush_rotates_over_pending_imm", ["C05"], "ORD-9", file="src/db.rs",
+    old="""            } else if mutex_guard.maybe_immutable_memtable.is_some() {
+                /*
+                We have filled up the current memtable, but the previous one is still being""",
+    new="""            } else if !force_compaction && mutex_guard.maybe_immutable_memtable.is_some() {
+                /*
+                We have filled up the current memtable, but the previous one is still being""")
+mut("flush_leaves_output_registered", ["C11"], "ORD-13", file="src/db.rs",
+    old="""        db_fields_guard.tables_in_use.remove(&file_number);
+
+        // If the file size is zero""",
+    new="""        // If the file size is zero""")
+
+# ---- TS-1 dropped fragment / GRD-14 / PAIR-11 / C10 error subset
+mut("reader_tracks_fragmentation_by_buffer_emptiness", ["C12", "C16"], "TS-1", patch="ts_flag_replaced_by_buffer_emptiness.diff",
+    note="in_fragmented_record replaced by !data_buffer.is_empty(): after a zero-length First fragment the Middle/Last fragments are dropped")
+mut("manual_compaction_truncates_level0_inputs", ["C01", "C07"], "GRD-14", file="src/versioning/version_set.rs",
+    old="""        if level_to_compact > 0 {
+            /*
+            Avoid compacting too much in one shot in case the range is large.""",
+    new="""        if level_to_compact + 1 > 0 {
+            /*
+            Avoid compacting too much in one shot in case the range is large.""",
+    note="level-0 inputs overlap; dropping one of them moves newer data below older data")
+mut("manual_compaction_truncation_can_empty_inputs", ["C09"], "GRD-14", file="src/versioning/version_set.rs",
+    old="""                    compaction_input_files.truncate(file_index + 1);""",
+    new="""                    compaction_input_files.truncate(file_index);""",
+    note="first file already over the limit -> empty inputs -> assert on the compaction thread")
+mut("two_level_seek_to_first_keeps_stale_block_cursor", ["C04", "C13"], "PAIR-11", file="src/tables/table.rs",
+    old="""        self.index_block_iter.seek_to_first()?;
+        self.init_data_block()?;
+
+        if self.maybe_data_block_iter.is_some() {
+            self.maybe_data_block_iter
+                .as_mut()
+                .unwrap()
+                .seek_to_first()?;
+        }
+
+        self.skip_empty_data_blocks_forward()?;""",
+    new="""        self.index_block_iter.seek_to_first()?;
+        self.init_data_block()?;
+        self.skip_empty_data_blocks_forward()?;""")
+mut("files_iterator_seek_to_last_positions_child_first", ["C04"], "PAIR-11", file="src/versioning/file_iterators.rs",
+    old="""        self.set_table_iter(Some(new_file_index))?;
+
+        if self.current_table_iter.is_some() {
+            self.current_table_iter.as_mut().unwrap().seek_to_last()?;
+        }
+
+        self.skip_empty_table_files_backward()?;""",
+    new="""        self.set_table_iter(Some(new_file_index))?;
+
+        if self.current_table_iter.is_some() {
+            self.current_table_iter.as_mut().unwrap().seek_to_first()?;
+        }
+
+        self.skip_empty_table_files_backward()?;""")
+mut("filter_told_block_end_without_trailer", ["C13", "C14"], "PAIR-5", file="src/tables/table_builder.rs",
+    old="""        self.filter_block_builder
+            .notify_new_data_block(self.current_offset as usize);""",
+    new="""        let block_end_offset = block_handle.get_offset() + block_handle.get_size();
+        self.filter_block_builder
+            .notify_new_data_block(block_end_offset as usize);""")
+benign("two_level_seek_to_first_position_via_if_let", ["C04", "C13"], "src/tables/table.rs",
+    old="""        self.index_block_iter.seek_to_first()?;
+        self.init_data_block()?;
+
+        if self.maybe_data_block_iter.is_some() {
+            self.maybe_data_block_iter
+                .as_mut()
+                .unwrap()
+                .seek_to_first()?;
+        }
+""",
+    new="""        self.index_block_iter.seek_to_first()?;
+        self.init_data_block()?;
+
+        if let Some(data_block_iter) = self.maybe_data_block_iter.as_mut() {
+            data_block_iter.seek_to_first()?;
+        }
+""", note="same behaviour written with if-let")
+benign("manual_compaction_truncate_len_in_local", ["C09", "C01"], "src/versioning/version_set.rs",
+    old="""                    compaction_input_files.truncate(file_index + 1);""",
+    new="""                    let keep = file_index + 1;
+                    compaction_input_files.truncate(keep);""")
